@@ -605,32 +605,74 @@ func instrLevel(in *AsmInstr) (int, string) {
 
 // guardLowerBound: the lowest cpu.ArchLevel for which instruction `at` can execute, from dominating comparisons.
 func (p *Program) guardLowerBound(at ssa.Instruction) int {
+	return lowerBoundFromFacts(dominatingFacts(at), 0)
+}
+
+func archLevelBound(f Fact) (int, bool) {
+	if f.Y == nil {
+		return 0, false
+	}
+	g := globalLoad(f.X)
+	if g == nil || g.Name() != "ArchLevel" {
+		return 0, false
+	}
+	k, ok := constInt(f.Y)
+	if !ok {
+		return 0, false
+	}
+	switch f.Op.String() {
+	case ">=", "==":
+		return int(k), true
+	case ">":
+		return int(k) + 1, true
+	}
+	return 0, false
+}
+
+// lowerBoundFromFacts: the lowest cpu.ArchLevel consistent with the facts. A boolean that is known true and is
+// the phi of a short-circuit `a && b` carries the facts of the edges over which it can be true.
+func lowerBoundFromFacts(facts []Fact, depth int) int {
 	lb := 0
-	for _, f := range dominatingFacts(at) {
-		if f.Y == nil {
+	for _, f := range facts {
+		if b, ok := archLevelBound(f); ok {
+			if b > lb {
+				lb = b
+			}
 			continue
 		}
-		g := globalLoad(f.X)
-		if g == nil || g.Name() != "ArchLevel" {
+		if f.Y != nil || depth > 3 {
 			continue
 		}
-		k, ok := constInt(f.Y)
-		if !ok {
+		phi, ok := f.X.(*ssa.Phi)
+		if !ok || !isBoolType(phi.Type()) {
 			continue
 		}
-		switch f.Op.String() {
-		case ">=":
-			if int(k) > lb {
-				lb = int(k)
+		wantTrue := f.Op.String() == "=="
+		best := -1
+		for i, e := range phi.Edges {
+			if c, isC := constBool(e); isC && c != wantTrue {
+				continue // this incoming value contradicts the fact
 			}
-		case ">":
-			if int(k)+1 > lb {
-				lb = int(k) + 1
+			pred := phi.Block().Preds[i]
+			ef := dominatingFacts(pred.Instrs[len(pred.Instrs)-1])
+			if br, ok := edgeCond(pred, phi.Block()); ok {
+				if bf, ok := branchFact(br); ok {
+					ef = append(ef, bf)
+				}
 			}
-		case "==":
-			if int(k) > lb {
-				lb = int(k)
+			// the incoming value itself is a comparison that holds
+			if bo, isB := e.(*ssa.BinOp); isB {
+				if bf, ok := branchFact(Branch{Cond: bo, True: wantTrue}); ok {
+					ef = append(ef, bf)
+				}
 			}
+			l := lowerBoundFromFacts(ef, depth+1)
+			if best < 0 || l < best {
+				best = l
+			}
+		}
+		if best > lb {
+			lb = best
 		}
 	}
 	return lb
